@@ -41,6 +41,7 @@ func checkC13(c *Ctx, r *Report) {
 		return
 	}
 	borrowRule(c, r, "C13-borrow", "transport/ax25/agwpe")
+	serialWriteRule(c, r, "C13-serial")
 	frameT, _ := p.Types.Scope().Lookup("frame").(*types.TypeName)
 	headerT, _ := p.Types.Scope().Lookup("header").(*types.TypeName)
 	if frameT == nil || headerT == nil {
@@ -785,5 +786,72 @@ func streamReadRule(c *Ctx, r *Report, fn *ssa.Function, rule, field string) {
 		o.Bad("the kept remainder is not served before the next frame is taken from the channel: bytes are reordered or lost")
 	default:
 		o.OK("each copy stores x[n:] in %s and a non-empty remainder is served before the next frame", strings.TrimPrefix(field, "."))
+	}
+}
+
+// serialWriteRule: frames reach the TNC connection whole. Either every call that writes a frame to
+// the connection holds one mutex of the TNC, or a frame is written with a single Write call.
+func serialWriteRule(c *Ctx, r *Report, rule string) {
+	const pkg = "transport/ax25/agwpe"
+	r.Rule(rule, 1, "frames written by different goroutines cannot interleave on the TNC connection")
+	wt := c.Func(pkg, "(frame).WriteTo")
+	if wt == nil {
+		r.Fail(rule, "anchor frame.WriteTo not found")
+		return
+	}
+	// number of writes WriteTo performs on its writer on the longest path (calls that receive w)
+	nWrites := 0
+	w := wt.Params[len(wt.Params)-1]
+	for _, ci := range allCalls(wt) {
+		for _, a := range ci.Common().Args {
+			if sameSlotValue(a, w) {
+				nWrites++
+			}
+		}
+		if ci.Common().IsInvoke() && sameSlotValue(ci.Common().Value, w) {
+			nWrites++
+		}
+	}
+	single := nWrites == 1
+	n := 0
+	for _, fn := range c.SrcFuncs(pkg) {
+		for _, ci := range allCalls(fn) {
+			callee := ci.Common().StaticCallee()
+			if callee != wt || fn == wt {
+				continue
+			}
+			// only writes to the TNC's connection
+			if !strings.HasSuffix(pathOf(ci.Common().Args[len(ci.Common().Args)-1]), ".conn") {
+				continue
+			}
+			n++
+			o := r.Add(rule, fnName(fn), "frame written to the TNC: "+c.exprAt(fn, ci.Pos()), c.pos(ci.Pos()))
+			if single {
+				o.OK("frame.WriteTo hands the whole frame to the connection in one Write")
+				continue
+			}
+			isMu := func(call ssa.CallInstruction, m string) bool {
+				nm := callName(call.Common())
+				return (nm == "sync.Mutex."+m || nm == "sync.RWMutex."+m) && len(call.Common().Args) > 0 && strings.HasPrefix(strings.TrimPrefix(pathOf(call.Common().Args[0]), "&"), pathOf(fn.Params[0])+".")
+			}
+			held := heldAt(fn, func(call ssa.CallInstruction) bool { return isMu(call, "Lock") }, func(call ssa.CallInstruction) bool { return isMu(call, "Unlock") })
+			if held[ci.(ssa.Instruction)] {
+				o.OK("a mutex of the TNC is held while the %d parts of the frame are written", nWrites)
+			} else {
+				o.Bad("a frame is written in %d separate writes without holding a lock of the TNC, and several goroutines write frames (Conn.Write, the outstanding-frames poll of Flush/Close, the cancel goroutine of connect, inbound handling, other connections): another frame can land between a frame's header and its data and the TNC loses framing", nWrites)
+			}
+		}
+	}
+	if n == 0 {
+		r.Add(rule, pkg, "frame writes to the TNC connection", pkg).Bad("no call of frame.WriteTo on the TNC connection found (unresolved)")
+	}
+	// and nothing else writes to that connection
+	for _, fn := range c.SrcFuncs(pkg) {
+		for _, ci := range allCalls(fn) {
+			name := callName(ci.Common())
+			if ci.Common().IsInvoke() && ci.Common().Method.Name() == "Write" && strings.HasSuffix(pathOf(ci.Common().Value), ".conn") && rootFn(fn) != wt {
+				r.Add(rule, fnName(fn), "raw write to the TNC connection "+c.exprAt(fn, ci.Pos()), c.pos(ci.Pos())).Bad("bytes are written to the TNC connection outside frame.WriteTo (%s): they are not ordered with the frames other goroutines write", name)
+			}
+		}
 	}
 }
